@@ -32,6 +32,7 @@ import Absnfs.ServerInvProcs
 import Absnfs.ServerFailed
 import Absnfs.FsReach
 import Absnfs.ServerLookup
+import Absnfs.ServerListing
 import Props.C21
 import Gen.Facts
 open Absnfs Absnfs.Server
@@ -112,7 +113,8 @@ theorem new_object_invalidations (s : St) (dir path : Bytes) :
 
 /-- a new server — empty attribute cache, empty handle table, over any well-formed backend tree — satisfies the invariant -/
 theorem new_server_cinv (s : St) (hac : s.ac.entries = []) (hcap : 0 < s.ac.cap) (raw : Int) (hhs : s.hs = Handles.init raw)
-    (hdm : 0 < s.cfg.defaultMaxHandles) (hwf : Fs.WF s.fs) : CInv s where
+    (hdm : 0 < s.cfg.defaultMaxHandles) (hwf : Fs.WF s.fs)
+    (hdc : ∀ c, s.dc = some c → c.entries = [] ∧ 0 < c.cap) : CInv s where
   coh := initial_coherent s hac
   lru := ⟨by simp [Lru.keys, hac], by simp [hac], hcap⟩
   keys := by intro e he; rw [hac] at he; simp at he
@@ -120,6 +122,10 @@ theorem new_server_cinv (s : St) (hac : s.ac.entries = []) (hcap : 0 < s.ac.cap)
   wf := hwf
   htab := by rw [hhs]; exact Handles.inv_init _ raw
   hdm := hdm
+  dci := by
+    intro c hc
+    obtain ⟨he, hcap⟩ := hdc c hc
+    exact ⟨by simp [Lru.keys, he], by simp [he], hcap⟩
 
 /-- the empty backend is well-formed, and the operations that populate it keep it so -/
 theorem empty_backend_wf (m : Nat) : Fs.WF (Fs.empty m) := Fs.wf_empty m
@@ -191,6 +197,56 @@ theorem failed_rmdir_leaves_tree (s s' : St) (c : Ctx) (a : Bytes) (st : Nat) (b
 theorem failed_rename_leaves_tree (s s' : St) (c : Ctx) (a : Bytes) (st : Nat) (b : Rfc.Body) (h : CInv s)
     (heq : procRename s c a = (s', .res ⟨st, b⟩)) (hst : st ≠ 0) : s'.fs = s.fs := procRename_failed s s' c a st b h heq hst
 
+/-! ### the directory-listing cache: the server's own mutations are never hidden
+
+`CInv` also says the directory cache has unique keys, so an invalidation really removes the entry. After an
+NFS3_OK MKDIR / SYMLINK / CREATE (of a new name) / REMOVE / RMDIR in a directory, or RENAME between two, the cache
+holds no listing of the parent(s); `Props.C26.entries_are_the_backend_directory` then says the next READDIR or
+READDIRPLUS of that directory is read from the backend. (What is *not* proved is that a listing which stays cached
+equals the backend's: DESIGN §11.7.) -/
+
+theorem mkdir_drops_parent_listing (s0 : St) (rs : List Req) (h0 : CInv s0) (s' : St) (c : Ctx) (args : Bytes) (fh : Nat)
+    (fa : Rfc.Fattr) (w : Rfc.Wcc) (h : procMkdir (runReqs s0 rs) c args = (s', CreatedOk fh fa w)) :
+    ∃ hd r1 n, decFh' (runReqs s0 rs) args = some (hd, r1) ∧ nodeOf (runReqs s0 rs) hd = some n ∧ DcCold s' n.path :=
+  mkdir_then_listing_is_backend _ s' c args fh fa w (runReqs_cinv s0 rs h0) h
+
+theorem symlink_drops_parent_listing (s0 : St) (rs : List Req) (h0 : CInv s0) (s' : St) (c : Ctx) (args : Bytes) (fh : Nat)
+    (fa : Rfc.Fattr) (w : Rfc.Wcc) (h : procSymlink (runReqs s0 rs) c args = (s', CreatedOk fh fa w)) :
+    ∃ hd r1 n, decFh' (runReqs s0 rs) args = some (hd, r1) ∧ nodeOf (runReqs s0 rs) hd = some n ∧ DcCold s' n.path :=
+  symlink_then_listing_is_backend _ s' c args fh fa w (runReqs_cinv s0 rs h0) h
+
+theorem create_drops_parent_listing (s0 : St) (rs : List Req) (h0 : CInv s0) (s' : St) (c : Ctx) (args : Bytes) (fh : Nat)
+    (fa : Rfc.Fattr) (w : Rfc.Wcc) (h : procCreate (runReqs s0 rs) c args = (s', CreatedOk fh fa w)) :
+    ∃ hd r1 name r2 n, decFh' (runReqs s0 rs) args = some (hd, r1) ∧ decStr (runReqs s0 rs) r1 = some (name, r2) ∧
+      nodeOf (runReqs s0 rs) hd = some n ∧
+      ((∃ err, Fs.lstat (runReqs s0 rs).fs (fsPath (joinName n.path name)) = .error err) → DcCold s' n.path) :=
+  create_then_listing_is_backend _ s' c args fh fa w (runReqs_cinv s0 rs h0) h
+
+theorem remove_drops_parent_listing (s0 : St) (rs : List Req) (h0 : CInv s0) (s' : St) (c : Ctx) (args : Bytes) (w : Rfc.Wcc)
+    (h : procRemove (runReqs s0 rs) c args = (s', .res ⟨0, .wcc w⟩)) :
+    ∃ hd r1 n, decFh' (runReqs s0 rs) args = some (hd, r1) ∧ nodeOf (runReqs s0 rs) hd = some n ∧ DcCold s' n.path :=
+  remove_then_listing_is_backend _ s' c args w (runReqs_cinv s0 rs h0) h
+
+theorem rmdir_drops_parent_listing (s0 : St) (rs : List Req) (h0 : CInv s0) (s' : St) (c : Ctx) (args : Bytes) (w : Rfc.Wcc)
+    (h : procRmdir (runReqs s0 rs) c args = (s', .res ⟨0, .wcc w⟩)) :
+    ∃ hd r1 n, decFh' (runReqs s0 rs) args = some (hd, r1) ∧ nodeOf (runReqs s0 rs) hd = some n ∧ DcCold s' n.path :=
+  rmdir_then_listing_is_backend _ s' c args w (runReqs_cinv s0 rs h0) h
+
+theorem rename_drops_both_parent_listings (s0 : St) (rs : List Req) (h0 : CInv s0) (s' : St) (c : Ctx) (args : Bytes)
+    (w1 w2 : Rfc.Wcc) (h : procRename (runReqs s0 rs) c args = (s', .res ⟨0, .wcc2 w1 w2⟩)) :
+    ∃ h1 r1 n1 r2 h2 r3 d1 d2, decFh' (runReqs s0 rs) args = some (h1, r1) ∧ decStr (runReqs s0 rs) r1 = some (n1, r2) ∧
+      decFh' (runReqs s0 rs) r2 = some (h2, r3) ∧ nodeOf (runReqs s0 rs) h1 = some d1 ∧ nodeOf (runReqs s0 rs) h2 = some d2 ∧
+      DcCold s' d1.path ∧ DcCold s' d2.path :=
+  rename_then_listings_are_backend _ s' c args w1 w2 (runReqs_cinv s0 rs h0) h
+
+/-- and the listing read while the cache is cold is the backend's (any state satisfying the invariant) -/
+theorem cold_listing_is_the_backend (s : St) (now : Nat) (d : Node) (nodes : List Node) (hI : CInv s) (hcold : DcCold s d.path)
+    (hd : CleanPath d.path) (e : Fs.Entry) (hwalk : Fs.walk s.fs (fsPath d.path) = .ok e) (hk : e.kind = .dir)
+    (h : (readDir s now d).2 = .ok nodes) :
+    nodes.map (·.path) =
+      ((((Fs.sortByName (Fs.children s.fs (fsPath d.path))).map (·.1)).filter (listable d.path)).map (joinName d.path)) :=
+  readDir_lists_backend s now d nodes hI hcold hd e hwalk hk h
+
 /-- non-vacuity: the premises of `new_server_cinv` are met by a concrete server state -/
 def demoState : St :=
   { fs := Fs.empty 1000, hs := Handles.init 0, nodes := [],
@@ -199,5 +255,6 @@ def demoState : St :=
     cfg := { transfer := 65536, readOnly := false, maxFileSize := 0, squash := .none, maxStr := 8192, fhMax := 64,
              defaultMaxHandles := 100000, evictDivisor := 10, dcMaxDirSize := 10000, maxRecord := 1048576, writeVerf := [] } }
 example : CInv demoState := new_server_cinv demoState rfl (by decide) 0 rfl (by decide) (Fs.wf_empty 1000)
+  (by intro c hc; simp [demoState] at hc)
 
 end Props.C02
